@@ -8,6 +8,10 @@ CONFIG = {
             'CopyOnWriteFs.Chmod, CacheOnReadFs.Open, CacheOnReadFs.OpenFile(O_RDONLY)} x layer {empty, parent directory only, older copy '
             'with different content (stale for the cache)} x size {0,1,5,40000,70000} x side {layer, base} x every call index of the '
             'fault-free run of the call x {err:IO, err:NOENT (small sizes), short:k on Write (short write), short:k on Read (early EOF)}; '
+            'plus the O_RDWR|O_CREATE opens of both unions (cowopencreate, cacheopencreate) with every not-exist valued error (err:NOENT, '
+            'err:PNOTEXIST, err:PNOENT, err:NOTEXIST), and the two-level cache cache:100(faulty:P(mem),cache:100(faulty:P(mem),faulty:P(mem))) '
+            '(callers cache2open, cache2openfile, cache2opencreate; sides remote B, disk D, memory L; the copy-up target is the inner '
+            'CacheOnReadFs, its handle a UnionFile; both inner MemMapFs are inspected); '
             'quick runs the two multi-chunk sizes on {no older copy, older copy} and faults their non-Read/Write calls for two of the four '
             'callers; thorough runs everything plus short:32767. Oracle on the Go side, from afero.VerifDump of the MemMapFs under the '
             'layer right after the faulted call: entry absent | bytes equal to the older copy | bytes equal to the base file, else FAIL '
@@ -30,7 +34,7 @@ def _meta(lines):
     return dict(kv.split('=', 1) for kv in t[3].split(';') if '=' in kv)
 
 def nontrivial(cid, lines, r):
-    return _meta(lines).get('side', '-') in ('L', 'B', 'M')
+    return _meta(lines).get('side', '-') in ('L', 'B', 'D', 'M')
 
 def _gen(n, seed):
     return ''.join('%02x' % ((j * 7 + (j >> 8) * 31 + seed * 13 + 1) & 255) for j in range(n)) or '-'
